@@ -642,7 +642,8 @@ def applyStep (E : Env) (rec : Rec) : Plan → Value → Res Value
       (elemsOf E v).bind fun es =>
       (mapRes (fun e => (applyOpt rec conv e).map stripNull) es).bind fun es' =>
         if es'.isEmpty then
-          if ety.isDyn then (elementType v.ty).bind fun ie => .ok ⟨.list ie, .seq []⟩
+          -- `if ety.HasDynamicTypes() { … dynamicReplace(val.Type().ElementType(), ety.WithoutOptionalAttributesDeep()) }`
+          if ety.hasDyn then (elementType v.ty).bind fun ie => (dynRepl E ie ety.stripOpt).bind fun t => .ok ⟨.list t, .seq []⟩
           else .ok ⟨.list ety.stripOpt, .seq []⟩
         else if !canCollVal es' then .err "element types must all match for conversion to list"
         else listVal es'
@@ -650,7 +651,7 @@ def applyStep (E : Env) (rec : Rec) : Plan → Value → Res Value
     (elemsOf E v).bind fun es =>
     (mapRes (fun e => (applyOpt rec conv e).map stripNull) es).bind fun es' =>
       if es'.isEmpty then
-        if ety.isDyn then (elementType v.ty).bind fun ie => .ok ⟨.set ie, .sset [] []⟩
+        if ety.hasDyn then (elementType v.ty).bind fun ie => (dynRepl E ie ety.stripOpt).bind fun t => .ok ⟨.set t, .sset [] []⟩
         else .ok ⟨.set ety.stripOpt, .sset [] []⟩
       else if !canCollVal es' then .err "element types must all match for conversion to set"
       else setVal E es'
@@ -659,7 +660,7 @@ def applyStep (E : Env) (rec : Rec) : Plan → Value → Res Value
     -- keys of a map are strings: `Convert(key, cty.String)` is the identity
     (mapRes (fun e => applyOpt rec conv e) es).bind fun es' =>
       if es'.isEmpty then
-        if ety.isDyn then (elementType v.ty).bind fun ie => .ok ⟨.map ie, .smap [] []⟩
+        if ety.hasDyn then (elementType v.ty).bind fun ie => (dynRepl E ie ety.stripOpt).bind fun t => .ok ⟨.map t, .smap [] []⟩
         else .ok ⟨.map ety.stripOpt, .smap [] []⟩
       else
         (if isCollOrObj ety then unifyElems E rec false es' else .ok es').bind fun es'' =>
